@@ -194,3 +194,49 @@ def lost_accumulation(module, fn):
             if after:
                 found.append((init, st, loop, name))
     return found, examined
+
+
+def python_bool_inverted(module, fn, call_is_bool=None):
+    """`~flag` where `flag` is a plain Python bool (every assignment to it in the function is True / False / a `not` / an `and`-`or` of such):
+    the operator is the integer complement (~True == -2, ~False == -1), both of which are true in a test -- unlike `~` on a numpy
+    boolean, which the surrounding array code uses for 'not'.  -> [(use node, name)], number of flags examined"""
+    assigned = {}
+    for st in ast.walk(fn):
+        tgts = []
+        if isinstance(st, ast.Assign):
+            tgts = [(t, st.value) for t in st.targets]
+        elif isinstance(st, ast.AnnAssign) and st.value is not None:
+            tgts = [(st.target, st.value)]
+        elif isinstance(st, (ast.AugAssign, ast.For, ast.With, ast.NamedExpr)):
+            t = getattr(st, "target", None)
+            if isinstance(t, ast.Name):
+                assigned.setdefault(t.id, []).append(None)
+        for t, v in tgts:
+            for x in ast.walk(t):
+                if isinstance(x, ast.Name):
+                    assigned.setdefault(x.id, []).append(v if isinstance(t, ast.Name) else None)
+    params = {a.arg for a in fn.args.posonlyargs + fn.args.args + fn.args.kwonlyargs}
+
+    def plain(v, depth=0):
+        if isinstance(v, ast.Constant):
+            return isinstance(v.value, bool)
+        if isinstance(v, ast.UnaryOp) and isinstance(v.op, ast.Not):
+            return True  # `not x` is always a Python bool
+        if isinstance(v, ast.BoolOp):
+            return all(plain(x, depth + 1) for x in v.values)
+        if isinstance(v, ast.Name) and depth < 3 and v.id in flags_:
+            return True
+        if isinstance(v, ast.Call) and call_is_bool is not None and call_is_bool(v):
+            return True  # a repository function all of whose returns are True / False
+        return False
+
+    flags_ = set()
+    for _ in range(3):
+        for name, vals in assigned.items():
+            if name not in params and vals and all(v is not None and plain(v) for v in vals):
+                flags_.add(name)
+    found = []
+    for n in ast.walk(fn):
+        if isinstance(n, ast.UnaryOp) and isinstance(n.op, ast.Invert) and isinstance(n.operand, ast.Name) and n.operand.id in flags_:
+            found.append((n, n.operand.id))
+    return found, len(flags_)
